@@ -11,6 +11,8 @@ import Jawk.Lemmas.RunCor
 import Jawk.Lemmas.PipelineSpec
 import Jawk.Lemmas.RunSpec
 import Jawk.Props.Tables
+import Jawk.Lemmas.ArgsOrder
+import Jawk.Generated.CliOptions
 namespace Jawk.C03
 open Jawk Pipe
 
@@ -144,5 +146,68 @@ theorem sorts_first_most_significant (orc : Oracles) (c : Cfg) (p : Pipeline) (h
         = [(.sort e2 d2, .sort [] none), (.sort e1 d1, .sort [] (c.take.map (fun t => c.skip + t)))] ∧
       p.cfgs.filter RunCor.isSort = [.sort e2 d2, .sort e1 d1] :=
   RunCor.sorts_first_most_significant orc c p h k1 k2 hs e1 e2 d1 d2 h1 h2
+
+
+/-! ### the command line: argument order (model of clap's pass: `Jawk/Model/Args.lean`, helper `Lemmas/ArgsOrder.lean`)
+
+The correspondence run hands the SAME argument vector to clap and to `Args.parseArgs`; the record the model runs
+with is the one `parseArgs` yields. -/
+
+def kindCode : Args.Kind → Nat
+  | .flag => 0 | .single => 1 | .multi => 2 | .optValue => 3
+
+/-- the model's option table: names (long name and visible aliases) and kind of every option family -/
+def modelCli : List (List (List Nat) × Nat) :=
+  Args.Opt.all.map (fun o => (o.names.map (fun n => n.toList.map Char.toNat), kindCode o.kind))
+
+/-- the option table of the model IS the table regenerated from the `#[arg(..)]` attributes of `Cli`,
+`OutputOptions`, `JsonOutputOptions`, `TextOutputOptions` (in any declaration order), `--additional-help` apart -/
+theorem cli_table_generated :
+    (modelCli.all (fun x => Generated.cliOptions.contains x) &&
+     Generated.cliOptions.all (fun x => modelCli.contains x || x.1 == ["additional-help".toList.map Char.toNat])) = true := by
+  decide +kernel
+
+/-- the values the enumerated options accept -/
+theorem cli_enums_generated :
+    Generated.onErrorValues = ["ignore", "panic", "stderr", "stdout"].map (fun n => n.toList.map Char.toNat) ∧
+    Generated.outputStyleValues = ["json", "csv", "text"].map (fun n => n.toList.map Char.toNat) ∧
+    Generated.jsonStyleValues = ["one-line", "consise", "pretty"].map (fun n => n.toList.map Char.toNat) := by
+  decide +kernel
+
+/-- ARGUMENT ORDER: two command lines that are permutations of each other and agree on the relative order of
+the repeated options (inside every option family) and of the input files are parsed to the same record — both
+rejected, or both accepted with the same configuration, files and cache size -/
+theorem argument_order_irrelevant (a b : List Str)
+    (h : Args.SameUpToFamilyOrder (a.map Args.lex) (b.map Args.lex)) : Args.parseArgs a = Args.parseArgs b :=
+  Args.parseArgs_order_independent a b h
+
+/-- in the form a user reads: swapping two neighbouring arguments of different families changes nothing -/
+theorem swap_neighbours (l₁ l₂ : List Str) (s₁ s₂ : Str)
+    (h : Args.sameFamily (Args.lex s₁) (Args.lex s₂) = false) :
+    Args.parseArgs (l₁ ++ s₁ :: s₂ :: l₂) = Args.parseArgs (l₁ ++ s₂ :: s₁ :: l₂) :=
+  Args.swap_adjacent l₁ l₂ s₁ s₂ h
+
+/-- hence the whole run: same result, same standard output, same standard error -/
+theorem run_argument_order_irrelevant (orc : Oracles) (a b : List Str)
+    (h : Args.SameUpToFamilyOrder (a.map Args.lex) (b.map Args.lex))
+    (srcs : List Str → List Source) (wOut wErr : Writer) :
+    (Args.parseArgs a).map (fun p => run orc p.cfg (srcs p.files) wOut wErr)
+      = (Args.parseArgs b).map (fun p => run orc p.cfg (srcs p.files) wOut wErr) := by
+  rw [Args.parseArgs_order_independent a b h]
+
+/-- which command lines are accepted does not depend on order either: every token acceptable on its own, no
+flag / single-valued / optional-valued option twice -/
+theorem acceptance_is_order_free (toks : List Args.Tok) :
+    (Args.collect {} toks).isSome = true ↔
+      (∀ t ∈ toks, Args.tokOK t = true) ∧ ∀ o, o.kind ≠ .multi → (toks.filter (Args.isOpt o)).length ≤ 1 :=
+  Args.collect_isSome_iff toks
+
+/-- the exception in the property text is real: the order of repeated `--select` and of the files matters -/
+theorem repeated_options_keep_their_order :
+    Args.parseArgs ["--select=.a".toList, "--select=.b".toList] ≠ Args.parseArgs ["--select=.b".toList, "--select=.a".toList] :=
+  Args.repeated_order_matters'
+
+/-- non-vacuity: eight arguments, a shuffle of them under other aliases -/
+example : Args.parseArgs Args.exA = Args.parseArgs Args.exB := Args.exAB_eq
 
 end Jawk.C03
